@@ -2,6 +2,7 @@
 package c03
 
 import (
+	"context"
 	"fmt"
 	"runtime"
 	"strings"
@@ -89,12 +90,20 @@ func apply(m *message.Message, o op) bool {
 	}
 }
 
-var kinds = []string{"new", "copy-of-acked", "copy-of-nacked", "zero"}
+var kinds = []string{"new", "copy-of-acked", "copy-of-nacked", "zero", "new-with-ended-context"}
 
 func newMsg(kind string) *message.Message {
 	switch kind {
 	case "new":
 		return message.NewMessage("u", []byte("p"))
+	case "new-with-ended-context":
+		// a message whose context is already over (a consumer that settles after its deadline): settlement is about the
+		// message, not about its context
+		o := message.NewMessage("u", []byte("p"))
+		ctx, cancel := context.WithCancel(context.Background())
+		cancel()
+		o.SetContext(ctx)
+		return o
 	case "copy-of-acked":
 		o := message.NewMessage("u", []byte("p"))
 		o.Ack()
